@@ -246,14 +246,21 @@ func pairsHandle(c map[string]J) map[string]J {
 	fail := func(site, q, what string, exp, obs J) map[string]J {
 		return map[string]J{"status": "mismatch", "input": input + " | site " + site + " | ?- " + q, "what": what, "expected": exp, "observed": obs}
 	}
+	// the bindings in force before x and y meet (an earlier goal Vk = t); after a failed unification exactly they remain
 	unbound := []J{[]J{"v", 1.0}, []J{"v", 2.0}, []J{"v", 3.0}}
+	earlier := ""
+	if pr, ok := c["pre"].([]J); ok && jt.Int(pr[0]) > 0 {
+		earlier = fmt.Sprintf("V%d = %s, ", jt.Int(pr[0]), jt.Render(pr[1]))
+		unbound = c["b0"].([]J)
+		input = fmt.Sprintf("earlier goal %sx = %s, y = %s", earlier, xs, ys)
+	}
 	sto, _ := c["sto"].(bool)
 	hsto, _ := c["hsto"].(bool)
 	for round := 0; round < rounds; round++ {
 		b := &builder{r: rand.New(rand.NewSource(caseSeed(c, strconv.Itoa(round)))), plain: round == 0}
 		tx := b.term(c["x"])
 		ty := b.term(c["y"])
-		pre := strings.Join(append(b.goals, "true"), ", ")
+		pre := earlier + strings.Join(append(b.goals, "true"), ", ")
 		p := prolog.New(nil, nil)
 		type site struct {
 			name, test string
@@ -271,7 +278,10 @@ func pairsHandle(c map[string]J) map[string]J {
 			if s.skip {
 				continue
 			}
-			q := fmt.Sprintf("%s, (%s -> (%s == %s -> R = yes ; R = notidentical) ; R = no).", pre, s.test, tx, ty)
+			// alternatives of the QUERY itself, goals in plain conjunction: a control construct (->, ;, \+ inside a conjunction) would
+			// run its goal through call/1, which compiles it with the bindings applied - the terms would meet flattened and
+			// the earlier bindings / the way a list was built would never reach the unifier
+			q := fmt.Sprintf("(%s, %s, %s == %s, R = yes) ; (%s, %s, R = notidentical) ; (%s, R = no).", pre, s.test, tx, ty, pre, s.test, pre)
 			solved, vec, sc, err := runVec(p, q, nv, "R")
 			if err != nil || !solved {
 				return fail(s.name, q, "query did not run", "an answer", fmt.Sprint(err))
@@ -307,7 +317,7 @@ func pairsHandle(c map[string]J) map[string]J {
 			}
 			_ = hb
 			for _, pred := range []string{"hc", "ha"} {
-				q := fmt.Sprintf("%s, (%s(%s) -> R = yes ; R = no).", pre, pred, tx)
+				q := fmt.Sprintf("(%s, %s(%s), R = yes) ; (%s, R = no).", pre, pred, tx, pre)
 				solved, vec, sc, err := runVec(p, q, nv, "R")
 				if err != nil || !solved {
 					return fail("clause head ("+pred+")", q, "query did not run", "an answer", fmt.Sprint(err))
@@ -325,9 +335,8 @@ func pairsHandle(c map[string]J) map[string]J {
 			}
 		}
 		// standard order
-		q := fmt.Sprintf("%s, compare(O, %s, %s), compare(P, %s, %s), (%s == %s -> EQ = t ; EQ = f), (%s \\== %s -> NE = t ; NE = f), (%s @< %s -> LT = t ; LT = f), (%s @=< %s -> LE = t ; LE = f), (%s @> %s -> GT = t ; GT = f), (%s @>= %s -> GE = t ; GE = f).",
-			pre, tx, ty, ty, tx, tx, ty, tx, ty, tx, ty, tx, ty, tx, ty, tx, ty)
-		solved, _, sc, err := runVec(p, q, nv, "O", "P", "EQ", "NE", "LT", "LE", "GT", "GE")
+		q := fmt.Sprintf("%s, compare(O, %s, %s), compare(P, %s, %s).", pre, tx, ty, ty, tx)
+		solved, _, sc, err := runVec(p, q, nv, "O", "P")
 		if err != nil || !solved {
 			return fail("compare/3", q, "query did not run", "an answer", fmt.Sprint(err))
 		}
@@ -354,9 +363,18 @@ func pairsHandle(c map[string]J) map[string]J {
 		}
 		wantOps := map[string]string{"EQ": t(o == "="), "NE": t(o != "="), "LT": t(o == "<"), "LE": t(o != ">"), "GT": t(o == ">"), "GE": t(o != "<"),
 			"P": "chr:" + map[string]string{"<": ">", "=": "=", ">": "<"}[o]}
-		for k, w := range wantOps {
-			if sc[k] != w {
-				return fail("term comparison", q, "consistency of "+k+" with compare/3 = "+o+" in the same call", w, sc[k])
+		if sc["P"] != wantOps["P"] {
+			return fail("term comparison", q, "compare/3 with the arguments swapped", wantOps["P"], sc["P"])
+		}
+		// each operator in a query of its own, as a plain goal after the goals that build the terms (see above: no call/1 in between)
+		for k, op := range map[string]string{"EQ": "==", "NE": "\\==", "LT": "@<", "LE": "@=<", "GT": "@>", "GE": "@>="} {
+			q := fmt.Sprintf("(%s, %s %s %s, R = t) ; (%s, R = f).", pre, tx, op, ty, pre)
+			solved, _, sc, err := runVec(p, q, nv, "R")
+			if err != nil || !solved {
+				return fail("term comparison", q, "query did not run", "an answer", fmt.Sprint(err))
+			}
+			if sc["R"] != wantOps[k] {
+				return fail("term comparison", q, "consistency of "+op+" with compare/3 = "+o, wantOps[k], sc["R"])
 			}
 		}
 	}
